@@ -105,8 +105,17 @@ inline void parse_arguments(frg::string_view cmdline, std::ranges::range auto ar
 		if(opening_quote < spc) {
 			quoted = true;
 
-			closing_quote = opening_quote + 1 + cmdline.sub_string(opening_quote + 1, cmdline.size() - opening_quote - 1).find_first('\"');
-			spc = closing_quote + 1 + cmdline.sub_string(closing_quote + 1, cmdline.size() - closing_quote - 1).find_first(' ');
+			size_t quote = cmdline.sub_string(opening_quote + 1, cmdline.size() - opening_quote - 1).find_first('\"');
+			if(quote == size_t(-1)) {
+				// Unterminated quote: the argument extends to the end of the command line.
+				closing_quote = cmdline.size();
+				spc = size_t(-1);
+			}else{
+				closing_quote = opening_quote + 1 + quote;
+				spc = cmdline.sub_string(closing_quote + 1, cmdline.size() - closing_quote - 1).find_first(' ');
+				if(spc != size_t(-1))
+					spc += closing_quote + 1;
+			}
 		}
 
 		size_t split_on = spc;
